@@ -239,10 +239,6 @@ def shape_inputs(iid, shape):
     return Inputs(iid, "shape:" + json.dumps(shape, separators=(",", ":")), files, shape=shape)
 
 
-def shape_nontrivial(shape):
-    return len(shape["types"]) > 1
-
-
 def _prim_expr(rng):
     ts = D.TypeSet()
     return ts.expr(D.rand_prim(rng, void_ok=False))
@@ -1192,7 +1188,18 @@ def _phase(ctx, what):
     sys.stdout.flush()
 
 
+def tree_digest():
+    """digest of the generator's sources: the tree under test must not change while runs are being compared"""
+    h = hashlib.sha256()
+    for f in sorted((REPO / "src" / "nunavut").rglob("*")):
+        if f.is_file() and "__pycache__" not in f.parts:
+            h.update(str(f.relative_to(REPO)).encode())
+            h.update(f.read_bytes())
+    return h.hexdigest()
+
+
 def run(ctx):
+    tree = tree_digest()
     wit, orders = run_models(ctx)
     _phase(ctx, "models checked, %d witnesses, %d predicted orders" % (len(wit), len(orders)))
     camp = Campaign(ctx)
@@ -1205,6 +1212,9 @@ def run(ctx):
         ctx.cov["option_sets_not_applicable"] = camp.failed_baselines[:20]
         if len(camp.failed_baselines) > len(camp.opts) // 3:
             raise MachineryFailure("too many reference runs failed: %r" % camp.failed_baselines[:3])
+    if tree_digest() != tree:
+        raise MachineryFailure("the tree under test (%s) changed while the runs were executed: results are not comparable, run again" % REPO)
+    ctx.cov["tree_digest"] = tree[:16]
     rejects = camp.judge()
     _phase(ctx, "trace validated: %d records, %d rejected" % (len(camp.records), len(rejects)))
 
